@@ -106,11 +106,11 @@ func CtxEcho(ctx context.Context, s string) string {
 }
 func CtxPair(ctx context.Context, a interface{}, n int) string {
 	record("CtxPair", a, n)
-	return fmt.Sprintf("%T(%v),%d", a, a, n)
+	return fmt.Sprintf("%s,%d", gen.CanonOf(a), n) // the canonical form: the wire does not tell int from int64
 }
 func CtxLast(ctx context.Context, n int, a interface{}) string {
 	record("CtxLast", n, a)
-	return fmt.Sprintf("%d,%T(%v)", n, a, a)
+	return fmt.Sprintf("%d,%s", n, gen.CanonOf(a))
 }
 func CtxVar(ctx context.Context, a interface{}, r ...int) string {
 	args := []interface{}{a}
@@ -118,7 +118,7 @@ func CtxVar(ctx context.Context, a interface{}, r ...int) string {
 		args = append(args, x)
 	}
 	record("CtxVar", args...)
-	return fmt.Sprintf("%T(%v),%v", a, a, r)
+	return fmt.Sprintf("%s,%v", gen.CanonOf(a), r)
 }
 func CtxPtr(ctx context.Context, p *int, s []string, m map[string]int) string {
 	record("CtxPtr", p, s, m)
